@@ -135,3 +135,49 @@ Qed.
 Lemma collapse_deliver_enabled : forall s c f r, c_call s c = CWait f -> c_fres s f = Some r ->
   exists s', cstep s (CDeliver c) = Some s' /\ c_call s' c = CRet r.
 Proof. intros s c f r H1 H2. simpl. rewrite H1, H2. eexists; split; [reflexivity|]. simpl. apply updo_same. Qed.
+
+(* ---------------------------------------------------------------- the collapse key *)
+Lemma collapse_same_flight_same_key : forall s c1 c2 f, creach s ->
+  c_joined s c1 = Some f -> c_joined s c2 = Some f -> c_key s c1 = c_key s c2.
+Proof.
+  intros s c1 c2 f R H1 H2. destruct (creach_inv s R) as [_ I2 _ _ _ _].
+  destruct (I2 _ _ H1) as [_ A]. destruct (I2 _ _ H2) as [_ B]. congruence.
+Qed.
+
+(* requests that share a flight are equal commands: two DIFFERENT callers whose requests enter the single-flight group
+   under the same key are both plain full-region ResolveLock requests (no keys, no txn infos) of the same region, start
+   version and async flag -- equal in every component but the commit version, and equal outright when the commit version
+   is a function of the transaction (a transaction has one commit ts) *)
+Lemma collapse_key_equal_commands : forall (kenc : nat * nat * bool -> nat),
+  (forall a b, kenc a = kenc b -> a = b) ->
+  forall r1 r2 c1 c2, c1 <> c2 -> flight_key kenc r1 c1 = flight_key kenc r2 c2 ->
+  rc_keys r1 = [] /\ rc_txninfos r1 = [] /\ rc_keys r2 = [] /\ rc_txninfos r2 = []
+  /\ rc_region r1 = rc_region r2 /\ rc_start r1 = rc_start r2 /\ rc_isasync r1 = rc_isasync r2
+  /\ (rc_commit r1 = rc_commit r2 -> r1 = r2).
+Proof.
+  intros kenc Hinj r1 r2 c1 c2 Hne H. unfold flight_key in H.
+  destruct (collapsible r1) eqn:E1; destruct (collapsible r2) eqn:E2; try lia.
+  unfold collapsible in E1, E2.
+  destruct (rc_keys r1) eqn:K1; try discriminate. destruct (rc_txninfos r1) eqn:T1; try discriminate.
+  destruct (rc_keys r2) eqn:K2; try discriminate. destruct (rc_txninfos r2) eqn:T2; try discriminate.
+  assert (Hk : collapse_key r1 = collapse_key r2) by (apply Hinj; lia).
+  unfold collapse_key in Hk. inversion Hk as [[A B C]].
+  repeat split; auto. intros HC. destruct r1, r2; simpl in *. congruence.
+Qed.
+
+(* a request that may not be collapsed never shares a flight: its key is its caller's own *)
+Lemma not_collapsible_private : forall kenc r1 r2 c1 c2, collapsible r1 = false -> c1 <> c2 ->
+  flight_key kenc r1 c1 <> flight_key kenc r2 c2.
+Proof.
+  intros kenc r1 r2 c1 c2 E1 Hne H. unfold flight_key in H. rewrite E1 in H. destruct (collapsible r2); lia.
+Qed.
+
+Lemma collapse_key_full :
+  (forall s c1 c2 f, creach s -> c_joined s c1 = Some f -> c_joined s c2 = Some f -> c_key s c1 = c_key s c2)
+  /\ (forall (kenc : nat * nat * bool -> nat), (forall a b, kenc a = kenc b -> a = b) ->
+        forall r1 r2 c1 c2, c1 <> c2 -> flight_key kenc r1 c1 = flight_key kenc r2 c2 ->
+        rc_keys r1 = [] /\ rc_txninfos r1 = [] /\ rc_keys r2 = [] /\ rc_txninfos r2 = []
+        /\ rc_region r1 = rc_region r2 /\ rc_start r1 = rc_start r2 /\ rc_isasync r1 = rc_isasync r2
+        /\ (rc_commit r1 = rc_commit r2 -> r1 = r2))
+  /\ (forall kenc r1 r2 c1 c2, collapsible r1 = false -> c1 <> c2 -> flight_key kenc r1 c1 <> flight_key kenc r2 c2).
+Proof. split; [exact collapse_same_flight_same_key|]. split; [exact collapse_key_equal_commands | exact not_collapsible_private]. Qed.
